@@ -206,6 +206,43 @@ class SqGen:
         return dict(k="Prod", ms=[self.dense(n, n), dict(k="Perm", dt=self.dt, p=p)])
 
 
+def herm_generic(g, n):
+    """(tree, declaration or None): an operator WITHOUT a structural diag rule whose matrix is Hermitian by construction, with a
+    true SelfAdjoint / PSD declaration on it or an annotation cola infers itself (W^H W); complex ones have complex off-diagonals"""
+    r = g.rnd
+
+    def hdense(m):
+        a = [[None] * m for _ in range(m)]
+        for i in range(m):
+            for j in range(i, m):
+                x = g.val()
+                if i == j:
+                    x = [x[0], 0]
+                a[i][j] = x
+                a[j][i] = [x[0], -x[1]]
+        return dict(k="Dense", dt=g.dt, a=a)
+    form = r.choice(["gram", "gram_decl", "adj", "prod_id", "sliced", "tridiag", "house", "sum_prod"])
+    if form in ("gram", "gram_decl"):
+        W = g.dense(r.randint(1, 3), n)
+        t = dict(k="Prod", ms=[dict(k="Adj", a=W), W])
+        return t, (None if form == "gram" else r.choice(["PSD", "SelfAdjoint"]))
+    if form == "adj":
+        return dict(k=r.choice(["Adj", "Transp"]), a=hdense(n)) if not g.cplx else dict(k="Adj", a=hdense(n)), "SelfAdjoint"
+    if form == "prod_id":
+        return dict(k="Prod", ms=[hdense(n), dict(k="Ident", dt=g.dt, n=n)]), "SelfAdjoint"
+    if form == "sliced":
+        a = r.randint(0, 2)
+        return dict(k="Sliced", a=hdense(n + 2), rs=list(range(a, a + n)), cs=list(range(a, a + n))), "SelfAdjoint"
+    if form == "tridiag":
+        off = [g.val() for _ in range(n - 1)]
+        return dict(k="Tridiag", dt=g.dt, al=[[x[0], -x[1]] for x in off], be=[[g.val()[0], 0] for _ in range(n)], ga=off), "SelfAdjoint"
+    if form == "house":
+        return dict(k="House", dt=g.dt, v=[g.val() for _ in range(n)], beta=[r.randint(-2, 2), 0]), "SelfAdjoint"
+    W = g.dense(r.randint(1, 2), n)
+    H = hdense(n)
+    return dict(k="Prod", ms=[dict(k="Sum", ms=[dict(k="Prod", ms=[dict(k="Adj", a=W), W]), H]), dict(k="Ident", dt=g.dt, n=n)]), "SelfAdjoint"
+
+
 def sanitize_sparse(t):
     """see props/c20.py: stay inside the region C01's Sparse finding does not spoil"""
     if t["k"] == "Sparse":
@@ -283,9 +320,11 @@ def classify(fn):
         return dict(cls="err", err="DStoch")        # non-integral entries: the stochastic estimator ran
 
 
-def run_tree(t, dqs, tqs):
+def run_tree(t, dqs, tqs, ann=None):
     import cola
     A = T.build(t)
+    if ann:
+        A = getattr(cola, ann)(A)          # a (true) declaration on the root
     dobs, tobs = [], []
     for k, a in dqs:
         al = alg_obj(a)
